@@ -148,6 +148,6 @@ def run(ctx):
 META = {
     "technique": "typed-AST query for signed arithmetic (computation types after promotion as resolved by clang); must-pass-through on getString's CFG; codec shape/width agreement between toHex/fromHex and getFullString/fromString",
     "level": "Static decision that hashing and hash combination contain no signed multiplication, addition or shift on non-constant operands (so no signed-overflow UB for any input), that getString() recomputes its result "
-             "from the current words on every path (no value-keyed memo that fails for the zero hash or after direct writes) and is the 16-character prefix, and that the hex codec and the 8-word loops agree in width and order.",
+             "from the current words on every path (no value-keyed memo that fails for the zero hash or after direct writes) and is the 16-character prefix, that the hex codec and the 8-word loops agree in width and order, and that no function on the hashing / hash-string path keeps mutable static state.",
     "note": "Does not decide distribution/collision properties, nor equal bytes => equal hashes across processes beyond the absence of process-dependent inputs in hash() (no address, time or random source is read there: enforced by R1's operand scan only for arithmetic).",
 }
